@@ -60,6 +60,28 @@ pub mod shadow_std {
         pub use ::std::env::*;
     }
 
+    /// (round 13) descriptor-level handles of the simulated process: `AsFd`/`AsRawFd`/`OwnedFd`
+    /// of the simulated stdout, stderr and files (a program that duplicates its stdout descriptor
+    /// must not get the simulator's real one)
+    pub mod os {
+        pub use ::std::os::*;
+        pub mod fd {
+            pub use super::super::super::simfd::{AsFd, AsRawFd, BorrowedFd, FromRawFd, IntoRawFd, OwnedFd, RawFd};
+            pub use ::std::os::fd::*;
+        }
+        pub mod unix {
+            pub use ::std::os::unix::*;
+            pub mod io {
+                pub use super::super::super::super::simfd::{AsFd, AsRawFd, BorrowedFd, FromRawFd, IntoRawFd, OwnedFd, RawFd};
+                pub use ::std::os::unix::io::*;
+            }
+            pub mod prelude {
+                pub use super::super::super::super::simfd::{AsFd, AsRawFd, BorrowedFd, FromRawFd, IntoRawFd, OwnedFd, RawFd};
+                pub use ::std::os::unix::prelude::*;
+            }
+        }
+    }
+
     pub mod process {
         pub use super::super::simenv::{exit, id};
         pub use super::super::simproc::{Child, ChildStderr, ChildStdin, ChildStdout, Command, Stdio};
@@ -930,6 +952,142 @@ pub type OutPathBuf = std::path::PathBuf;
 // =============================================================================================
 // File system
 // =============================================================================================
+pub mod simfd {
+    use super::simfs::File;
+    use super::simio::{Stderr, StderrLock, Stdout, StdoutLock};
+    use std::io;
+    pub type RawFd = i32;
+    #[derive(Clone, Copy)]
+    enum Which<'a> {
+        Stdio(u8),
+        File(&'a File),
+    }
+    #[derive(Clone, Copy)]
+    pub struct BorrowedFd<'a>(Which<'a>);
+    impl std::fmt::Debug for BorrowedFd<'_> {
+        fn fmt(&self, f: &mut std::fmt::Formatter) -> std::fmt::Result {
+            write!(f, "BorrowedFd({})", self.as_raw_fd())
+        }
+    }
+    pub enum OwnedFd {
+        #[doc(hidden)]
+        F(File),
+    }
+    impl std::fmt::Debug for OwnedFd {
+        fn fmt(&self, f: &mut std::fmt::Formatter) -> std::fmt::Result {
+            write!(f, "OwnedFd({})", self.as_raw_fd())
+        }
+    }
+    pub trait AsFd {
+        fn as_fd(&self) -> BorrowedFd<'_>;
+    }
+    pub trait AsRawFd {
+        fn as_raw_fd(&self) -> RawFd;
+    }
+    pub trait IntoRawFd {
+        fn into_raw_fd(self) -> RawFd;
+    }
+    pub trait FromRawFd {
+        /// # Safety
+        /// as `std::os::fd::FromRawFd`
+        unsafe fn from_raw_fd(fd: RawFd) -> Self;
+    }
+    impl<'a> BorrowedFd<'a> {
+        pub fn try_clone_to_owned(&self) -> io::Result<OwnedFd> {
+            match self.0 {
+                Which::Stdio(n) => Ok(OwnedFd::F(File::stdio_dup(n)?)),
+                Which::File(f) => Ok(OwnedFd::F(f.try_clone()?)),
+            }
+        }
+        /// # Safety
+        /// as `std::os::fd::BorrowedFd::borrow_raw`; only the standard streams can be named by number
+        pub unsafe fn borrow_raw(fd: RawFd) -> BorrowedFd<'a> {
+            BorrowedFd(Which::Stdio(fd.clamp(0, 2) as u8))
+        }
+    }
+    impl AsRawFd for BorrowedFd<'_> {
+        fn as_raw_fd(&self) -> RawFd {
+            match self.0 {
+                Which::Stdio(n) => n as RawFd,
+                Which::File(f) => f.as_raw_fd(),
+            }
+        }
+    }
+    impl AsFd for BorrowedFd<'_> {
+        fn as_fd(&self) -> BorrowedFd<'_> {
+            *self
+        }
+    }
+    impl<T: AsFd + ?Sized> AsFd for &T {
+        fn as_fd(&self) -> BorrowedFd<'_> {
+            (**self).as_fd()
+        }
+    }
+    impl OwnedFd {
+        pub fn try_clone(&self) -> io::Result<OwnedFd> {
+            let OwnedFd::F(f) = self;
+            Ok(OwnedFd::F(f.try_clone()?))
+        }
+    }
+    impl AsFd for OwnedFd {
+        fn as_fd(&self) -> BorrowedFd<'_> {
+            let OwnedFd::F(f) = self;
+            BorrowedFd(Which::File(f))
+        }
+    }
+    impl AsRawFd for OwnedFd {
+        fn as_raw_fd(&self) -> RawFd {
+            let OwnedFd::F(f) = self;
+            f.as_raw_fd()
+        }
+    }
+    impl From<OwnedFd> for File {
+        fn from(o: OwnedFd) -> File {
+            let OwnedFd::F(f) = o;
+            f
+        }
+    }
+    impl From<File> for OwnedFd {
+        fn from(f: File) -> OwnedFd {
+            OwnedFd::F(f)
+        }
+    }
+    impl AsFd for File {
+        fn as_fd(&self) -> BorrowedFd<'_> {
+            BorrowedFd(Which::File(self))
+        }
+    }
+    impl AsRawFd for File {
+        fn as_raw_fd(&self) -> RawFd {
+            self.fake_fd_number()
+        }
+    }
+    impl FromRawFd for File {
+        unsafe fn from_raw_fd(fd: RawFd) -> File {
+            // only the standard streams can be named by number in the simulated process
+            File::stdio_dup(fd.clamp(1, 2) as u8).expect("descriptor")
+        }
+    }
+    macro_rules! stdio {
+        ($t:ty, $n:expr) => {
+            impl AsFd for $t {
+                fn as_fd(&self) -> BorrowedFd<'_> {
+                    BorrowedFd(Which::Stdio($n))
+                }
+            }
+            impl AsRawFd for $t {
+                fn as_raw_fd(&self) -> RawFd {
+                    $n
+                }
+            }
+        };
+    }
+    stdio!(Stdout, 1);
+    stdio!(StdoutLock<'_>, 1);
+    stdio!(Stderr, 2);
+    stdio!(StderrLock<'_>, 2);
+}
+
 pub mod simfs {
     use crate::rng::{Fnv, Rng};
     use crate::world::{self, Gate};
@@ -937,6 +1095,22 @@ pub mod simfs {
     use std::io;
     use std::path::{Path, PathBuf};
     use std::sync::Arc;
+
+    /// what a path argument of the file-system functions must convert to: the generators' own
+    /// `Path` (the wrapper, when the build has it), so that a helper of the program that is generic
+    /// over `P: AsRef<Path>` can pass its argument on (control `t13_r4`)
+    #[cfg(feature = "path_shadow")]
+    pub use super::simpath::Path as ArgPath;
+    #[cfg(not(feature = "path_shadow"))]
+    pub use std::path::Path as ArgPath;
+    #[cfg(feature = "path_shadow")]
+    fn argp<P: AsRef<ArgPath> + ?Sized>(p: &P) -> &Path {
+        p.as_ref().as_std()
+    }
+    #[cfg(not(feature = "path_shadow"))]
+    fn argp<P: AsRef<ArgPath> + ?Sized>(p: &P) -> &Path {
+        p.as_ref()
+    }
 
     /// payload of the unwinding that stands for the death of the process at a crash point
     pub struct CrashRequest;
@@ -1112,6 +1286,10 @@ pub mod simfs {
 
     /// kind / length / mtime of a path as this run sees it
     pub(crate) fn stat(p: &Path) -> io::Result<Metadata> {
+        if world::with(|w| w.stat_fails_now()) {
+            // EIO (round 13: the gating metadata fault)
+            return Err(io::Error::from_raw_os_error(5));
+        }
         with_ino(p, stat_inner(p))
     }
     fn stat_inner(p: &Path) -> io::Result<Metadata> {
@@ -1178,7 +1356,8 @@ pub mod simfs {
         }
     }
 
-    pub fn metadata<P: AsRef<Path>>(p: P) -> io::Result<Metadata> {
+    pub fn metadata<P: AsRef<ArgPath>>(p: P) -> io::Result<Metadata> {
+        let p: &Path = argp(&p);
         stat(p.as_ref())
     }
     fn with_ino(p: &Path, m: io::Result<Metadata>) -> io::Result<Metadata> {
@@ -1187,18 +1366,21 @@ pub mod simfs {
             m
         })
     }
-    pub fn symlink_metadata<P: AsRef<Path>>(p: P) -> io::Result<Metadata> {
+    pub fn symlink_metadata<P: AsRef<ArgPath>>(p: P) -> io::Result<Metadata> {
+        let p: &Path = argp(&p);
         stat(p.as_ref())
     }
     /// `std::fs::exists`
-    pub fn exists<P: AsRef<Path>>(p: P) -> io::Result<bool> {
+    pub fn exists<P: AsRef<ArgPath>>(p: P) -> io::Result<bool> {
+        let p: &Path = argp(&p);
         Ok(stat(p.as_ref()).is_ok())
     }
-    pub fn canonicalize<P: AsRef<Path>>(p: P) -> io::Result<super::OutPathBuf> {
+    pub fn canonicalize<P: AsRef<ArgPath>>(p: P) -> io::Result<super::OutPathBuf> {
+        let p: &Path = argp(&p);
         stat(p.as_ref())?;
         Ok(real_path(p.as_ref()).into())
     }
-    pub fn read_link<P: AsRef<Path>>(_p: P) -> io::Result<super::OutPathBuf> {
+    pub fn read_link<P: AsRef<ArgPath>>(_p: P) -> io::Result<super::OutPathBuf> {
         Err(io::Error::new(io::ErrorKind::InvalidInput, "not a symbolic link"))
     }
 
@@ -1313,7 +1495,8 @@ pub mod simfs {
         });
     }
 
-    pub fn read_dir<P: AsRef<Path>>(p: P) -> io::Result<ReadDir> {
+    pub fn read_dir<P: AsRef<ArgPath>>(p: P) -> io::Result<ReadDir> {
+        let p: &Path = argp(&p);
         let p = p.as_ref();
         let key = world::with(|w| w.image.normalise(&w.absolute(p)));
         let (label, sorted): (String, Vec<(String, bool)>) = match key {
@@ -1491,7 +1674,8 @@ pub mod simfs {
         Ok(Arc::new(data))
     }
 
-    pub fn read<P: AsRef<Path>>(p: P) -> io::Result<Vec<u8>> {
+    pub fn read<P: AsRef<ArgPath>>(p: P) -> io::Result<Vec<u8>> {
+        let p: &Path = argp(&p);
         let (k, d) = fetch(p.as_ref())?;
         let data = content_with_hard_fault(&d)?;
         world::with(|w| {
@@ -1504,7 +1688,8 @@ pub mod simfs {
         Ok((*data).clone())
     }
 
-    pub fn read_to_string<P: AsRef<Path>>(p: P) -> io::Result<String> {
+    pub fn read_to_string<P: AsRef<ArgPath>>(p: P) -> io::Result<String> {
+        let p: &Path = argp(&p);
         let v = read(p)?;
         String::from_utf8(v).map_err(|_| {
             io::Error::new(io::ErrorKind::InvalidData, "stream did not contain valid UTF-8")
@@ -1531,6 +1716,9 @@ pub mod simfs {
         consecutive_weintr: u32,
         _fd: Fd,
         _writer: Option<Writer>,
+        /// (round 13) 1 / 2: this handle is a duplicate of the stdout / stderr descriptor
+        /// (`stdout().as_fd().try_clone_to_owned()` turned into a `File`)
+        stdio: u8,
     }
 
     pub(crate) fn write_key_of(p: &Path) -> String {
@@ -1593,7 +1781,8 @@ pub mod simfs {
 
     /// `fs::write`: captured, never touches the real tree. Not atomic: the file is truncated, then
     /// filled — a crash in between leaves it empty or partly written.
-    pub fn write<P: AsRef<Path>, C: AsRef<[u8]>>(p: P, contents: C) -> io::Result<()> {
+    pub fn write<P: AsRef<ArgPath>, C: AsRef<[u8]>>(p: P, contents: C) -> io::Result<()> {
+        let p: &Path = argp(&p);
         let key = write_key_of(p.as_ref());
         let mut c = contents.as_ref().to_vec();
         // (round 11) a full device: the file ends up with what fitted, the call fails with ENOSPC
@@ -1634,7 +1823,9 @@ pub mod simfs {
     /// `fs::rename`: moves a file the session wrote (write-to-temp-then-rename) or an image file;
     /// atomic with respect to a crash (old or new, never in between), durable like any other
     /// un-synced change
-    pub fn rename<P: AsRef<Path>, Q: AsRef<Path>>(from: P, to: Q) -> io::Result<()> {
+    pub fn rename<P: AsRef<ArgPath>, Q: AsRef<ArgPath>>(from: P, to: Q) -> io::Result<()> {
+        let from: &Path = argp(&from);
+        let to: &Path = argp(&to);
         let (kf, kt) = (write_key_of(from.as_ref()), write_key_of(to.as_ref()));
         world::with(|w| {
             let mut pd = Fnv::default();
@@ -1682,7 +1873,8 @@ pub mod simfs {
         Ok(())
     }
 
-    pub fn remove_file<P: AsRef<Path>>(p: P) -> io::Result<()> {
+    pub fn remove_file<P: AsRef<ArgPath>>(p: P) -> io::Result<()> {
+        let p: &Path = argp(&p);
         let k = write_key_of(p.as_ref());
         world::with(|w| {
             let mut pd = Fnv::default();
@@ -1708,17 +1900,18 @@ pub mod simfs {
         Ok(())
     }
 
-    pub fn create_dir<P: AsRef<Path>>(_p: P) -> io::Result<()> {
+    pub fn create_dir<P: AsRef<ArgPath>>(_p: P) -> io::Result<()> {
         Ok(())
     }
-    pub fn create_dir_all<P: AsRef<Path>>(_p: P) -> io::Result<()> {
+    pub fn create_dir_all<P: AsRef<ArgPath>>(_p: P) -> io::Result<()> {
         Ok(())
     }
-    pub fn remove_dir<P: AsRef<Path>>(_p: P) -> io::Result<()> {
+    pub fn remove_dir<P: AsRef<ArgPath>>(_p: P) -> io::Result<()> {
         Ok(())
     }
     /// removes what the session wrote below the directory
-    pub fn remove_dir_all<P: AsRef<Path>>(p: P) -> io::Result<()> {
+    pub fn remove_dir_all<P: AsRef<ArgPath>>(p: P) -> io::Result<()> {
+        let p: &Path = argp(&p);
         let k = write_key_of(p.as_ref());
         let (apply, die) = gate_op();
         if apply {
@@ -1738,7 +1931,9 @@ pub mod simfs {
         Ok(())
     }
 
-    pub fn copy<P: AsRef<Path>, Q: AsRef<Path>>(from: P, to: Q) -> io::Result<u64> {
+    pub fn copy<P: AsRef<ArgPath>, Q: AsRef<ArgPath>>(from: P, to: Q) -> io::Result<u64> {
+        let from: &Path = argp(&from);
+        let to: &Path = argp(&to);
         let data = read(from)?;
         let n = data.len() as u64;
         write(to, data)?;
@@ -1789,7 +1984,8 @@ pub mod simfs {
         pub fn custom_flags(&mut self, _f: i32) -> &mut Self {
             self
         }
-        pub fn open<P: AsRef<Path>>(&self, p: P) -> io::Result<File> {
+        pub fn open<P: AsRef<ArgPath>>(&self, p: P) -> io::Result<File> {
+            let p: &Path = argp(&p);
             if self.write || self.append {
                 let key = write_key_of(p.as_ref());
                 let exists = path_exists(&key, p.as_ref());
@@ -1807,7 +2003,8 @@ pub mod simfs {
     }
 
     impl File {
-        pub fn open<P: AsRef<Path>>(p: P) -> io::Result<File> {
+        pub fn open<P: AsRef<ArgPath>>(p: P) -> io::Result<File> {
+            let p: &Path = argp(&p);
             let (k, d) = fetch(p.as_ref())?;
             let d = content_with_hard_fault(&d)?;
             let fd = Fd::open()?;
@@ -1815,6 +2012,7 @@ pub mod simfs {
             Ok(File {
                 _fd: fd,
                 _writer: None,
+                stdio: 0,
                 data: d,
                 cur: Arc::new(std::sync::atomic::AtomicUsize::new(0)),
                 append: false,
@@ -1826,10 +2024,12 @@ pub mod simfs {
             })
         }
         /// `File::create`: captured, never touches the real tree
-        pub fn create<P: AsRef<Path>>(p: P) -> io::Result<File> {
+        pub fn create<P: AsRef<ArgPath>>(p: P) -> io::Result<File> {
+            let p: &Path = argp(&p);
             File::create_with(p.as_ref(), true, false)
         }
-        pub fn create_new<P: AsRef<Path>>(p: P) -> io::Result<File> {
+        pub fn create_new<P: AsRef<ArgPath>>(p: P) -> io::Result<File> {
+            let p: &Path = argp(&p);
             OpenOptions::new().write(true).create_new(true).open(p)
         }
         pub fn options() -> OpenOptions {
@@ -1885,6 +2085,7 @@ pub mod simfs {
             Ok(File {
                 _fd: fd,
                 _writer: Some(Writer::open(&key)),
+                stdio: 0,
                 data: Arc::new(vec![]),
                 cur: Arc::new(std::sync::atomic::AtomicUsize::new(0)),
                 append,
@@ -2028,6 +2229,7 @@ pub mod simfs {
             Ok(File {
                 _fd: Fd::open()?,
                 _writer: self._writer.as_ref().map(|w| w.dup()),
+                stdio: self.stdio,
                 data: self.data.clone(),
                 cur: self.cur.clone(),
                 append: self.append,
@@ -2037,6 +2239,46 @@ pub mod simfs {
                 wrng: self.wrng.clone(),
                 consecutive_weintr: 0,
             })
+        }
+    }
+
+    /// `std::fs::TryLockError`
+    pub use std::fs::TryLockError;
+    impl File {
+        fn lock_ino(&self) -> Option<u64> {
+            self._writer.as_ref().map(|w| w.0)
+        }
+        fn take_lock(&self, exclusive: bool, wait: bool) -> Result<(), TryLockError> {
+            let Some(ino) = self.lock_ino() else { return Ok(()) }; // read-only handles: not modelled
+            match world::with(|w| w.flock(ino, exclusive)) {
+                Ok(()) => Ok(()),
+                Err(()) if !wait => Err(TryLockError::WouldBlock),
+                Err(()) => {
+                    // The holder is the running instance, which goes on only after this (second)
+                    // instance is done: waiting would never end. As far as an observer can tell the
+                    // second instance is still waiting when the first one finishes: it is gone.
+                    crash()
+                }
+            }
+        }
+        /// `File::lock`: exclusive advisory lock, waits
+        pub fn lock(&self) -> io::Result<()> {
+            self.take_lock(true, true).map_err(|_| io::Error::from(io::ErrorKind::WouldBlock))
+        }
+        pub fn lock_shared(&self) -> io::Result<()> {
+            self.take_lock(false, true).map_err(|_| io::Error::from(io::ErrorKind::WouldBlock))
+        }
+        pub fn try_lock(&self) -> Result<(), TryLockError> {
+            self.take_lock(true, false)
+        }
+        pub fn try_lock_shared(&self) -> Result<(), TryLockError> {
+            self.take_lock(false, false)
+        }
+        pub fn unlock(&self) -> io::Result<()> {
+            if let Some(ino) = self.lock_ino() {
+                world::with(|w| w.funlock(ino));
+            }
+            Ok(())
         }
     }
 
@@ -2079,8 +2321,42 @@ pub mod simfs {
         }
     }
 
+    impl File {
+        /// descriptor numbers are not modelled beyond the standard streams: a stable fake
+        pub(crate) fn fake_fd_number(&self) -> i32 {
+            match self.stdio {
+                1 | 2 => self.stdio as i32,
+                _ => 3 + self._writer.as_ref().map(|w| (w.0 % 997) as i32).unwrap_or(0),
+            }
+        }
+        /// a duplicate of the simulated process's stdout (1) or stderr (2) descriptor as a `File`
+        pub(crate) fn stdio_dup(which: u8) -> io::Result<File> {
+            Ok(File {
+                _fd: Fd::open()?,
+                _writer: None,
+                stdio: which,
+                data: Arc::new(vec![]),
+                cur: Arc::new(std::sync::atomic::AtomicUsize::new(0)),
+                append: true,
+                rng: None,
+                consecutive_eintr: 0,
+                write_key: None,
+                wrng: None,
+                consecutive_weintr: 0,
+            })
+        }
+    }
+
     impl io::Write for File {
         fn write(&mut self, buf: &[u8]) -> io::Result<usize> {
+            match self.stdio {
+                1 => return super::simio::put(buf),
+                2 => {
+                    world::with(|w| w.stats.stderr_prints += 1);
+                    return Ok(buf.len());
+                }
+                _ => {}
+            }
             if self.cur_key().is_none() {
                 return Err(io::Error::new(io::ErrorKind::PermissionDenied, "file not opened for writing"));
             }
@@ -2235,7 +2511,7 @@ pub mod simio {
         }
     }
     /// a `write` on the stdout handle (not `println!`, which is `write_all` underneath)
-    fn put(buf: &[u8]) -> io::Result<usize> {
+    pub(crate) fn put(buf: &[u8]) -> io::Result<usize> {
         let (mut rng, mut ce) = world::with(|w| {
             if w.stdout_plan.is_none() {
                 let s = w.decide_stream("<stdout>", true);
